@@ -27,7 +27,7 @@ def make(cls, rng=None, base=None, offset=True, tilt=False, opposing=False, unit
     import coxeter
 
     S = coxeter.shapes
-    t3 = np.array([3.0, -2.0, 5.0]) if offset else np.zeros(3)
+    t3 = np.array([3.25, -2.5, 5.125]) if offset else np.zeros(3)      # (not integers: a truncation to int must show)
     if cls == "Circle":
         a = dict(radius=1.5, center=t3.copy())
     elif cls == "Ellipse":
@@ -44,7 +44,7 @@ def make(cls, rng=None, base=None, offset=True, tilt=False, opposing=False, unit
         if tilt:
             M, n = gen.rot_from_quat([2, 1, 0, 1], integer=True)
             V = V @ M.T / 4.0
-        V = V + (t3 if cls != "ConvexSpheropolygon" or tilt else np.array([3.0, -2.0, 0.0]) * (1 if offset else 0))
+        V = V + (t3 if cls != "ConvexSpheropolygon" or tilt else np.array([3.25, -2.5, 0.0]) * (1 if offset else 0))
         a = dict(vertices=V)
         if opposing and cls == "Polygon":
             # explicit normal opposing the vertex order: the polygon is listed clockwise about its normal (signed_area < 0)
